@@ -42,3 +42,21 @@ CHECKS["C17"] = {
     ],
     "expected_probes": ["driver_err", "visitor_err", "tx_err", "cursor_err", "cancel", "pipe_full_delivery", "pipe_writers_finished_before_first_read"],
 }
+
+CHECKS["C13"] = {
+    "engine": "sched",
+    "harness": "c13",
+    "packages": ["cardinality"],
+    "level": "exploration",
+    "budget": {"quick": 25, "thorough": 600},
+    "rule": "one evaluation = one seeded simulated run over the instrumented cardinality package: width 32 or 64, 3-7 providers (bitmap / threadSafe(bitmap), owned or shared, seeded from dense, sparse, 2^16-, 2^32- and max-adjacent values), 1-3 clients x 3-15 ops (add/remove/contains/checkedadd/cardinality/slice/each/clear/clone+edit/or/and/andnot/xor with every receiver x operand pairing). W1 checks answers against a map model with porcupine (partition per receiver), plus an audit of every provider at quiescence; W2 makes wrappers receivers and operands of each other concurrently and checks termination and that no element appears that nobody added. "
+            "Non-trivial = a contended scheduler decision switched tasks; distinct = distinct (workload, decision sequence) hashes, union over workers (cap 2M per worker: lower bound).",
+    "real": ["cardinality.bitmap32", "cardinality.bitmap64", "cardinality.threadSafeDuplex (instrumented: Mutex -> simsync)", "RoaringBitmap (un-instrumented, real)"],
+    "stubs": [],
+    "assumptions": SCHED_ASSUME + [
+        "W1: an operand is not mutated by another client while it is an operand (frozen shared wrapper, or owned by the caller), so 'the corresponding set' is well defined; un-wrapped providers are only touched by their owner",
+        "self-operands (a.Or(a)) are excluded: the statement says 'any other duplex provider'",
+        "Slice/Each order is not asserted, only the set",
+    ],
+    "expected_probes": ["w2_runs"],
+}
